@@ -75,6 +75,17 @@ macro_rules! field_bytes {
         if xa.cmp(&ya) != xm.cmp(&ym) || (xa == ya) != (xm == ym) {
             diff(ctx, &format!("{}::Ord/Eq", $name), &xa.cmp(&ya), &xm.cmp(&ym), hex::encode(b))?;
         }
+        // close pairs: x against x + 2^k and x + 2^k - 2^j (a comparison that mishandles one limb boundary only
+        // shows when the operands agree everywhere above it)
+        for k in [0u32, 1, 30, 31, 32, 33, 62, 63, 64, 65, 95, 96, 97, 127] {
+            let (da, dm) = (<$A>::from(1u128 << k), <$M>::from(1u128 << k));
+            let (ea, em) = (<$A>::from((1u128 << k) - (1u128 << (k / 2))), <$M>::from((1u128 << k) - (1u128 << (k / 2))));
+            for (pa, pm) in [(xa + da, xm + dm), (xa + ea, xm + em), (xa - da, xm - dm)] {
+                if xa.cmp(&pa) != xm.cmp(&pm) || pa.cmp(&xa) != pm.cmp(&xm) || (xa == pa) != (xm == pm) || (xa < pa) != (xm < pm) {
+                    diff(ctx, &format!("{}::Ord/Eq", $name), &xa.cmp(&pa), &xm.cmp(&pm), format!("{} against itself +- 2^{k}", hex::encode(xa.to_bytes_le())))?;
+                }
+            }
+        }
         Ok::<(), Failure>(())
     }};
 }
